@@ -569,9 +569,16 @@ impl Parser for ParameterDeclaration {
         }
 
         match this {
-            Some(Self::Valid { .. }) => {
-                affected(this, alt((|input| parse_valid(this, input), parse_error)))(input)
-            }
+            Some(Self::Valid { .. }) => affected(
+                this,
+                alt((
+                    |input| parse_valid(this, input),
+                    // if a part of the old parameter cannot be reused,
+                    // the parameter is parsed from scratch, before it is given up as erroneous
+                    |input| parse_valid(None, input),
+                    parse_error,
+                )),
+            )(input),
             _ => alt((|input| parse_valid(None, input), parse_error))(input),
         }
     }
